@@ -100,6 +100,54 @@ theorem C11_set_get (v : VecBuf) (hwf : v.WF) (bit j value : Nat) (hb : bit < v.
     rw [List.getD_eq_getElem?_getD, List.getElem?_set_ne hidx]
     simp [hne, List.getD_eq_getElem?_getD]
 
+/-- writing a bit keeps the buffer well formed -/
+theorem setValue_wf (v : VecBuf) (hwf : v.WF) (bit value : Nat) (hb : bit < v.bits) (hv : value ≤ v.st.mask) :
+    (v.setValue bit value).WF ∧ (v.setValue bit value).bits = v.bits ∧ (v.setValue bit value).st = v.st := by
+  obtain ⟨hlen, hbytes⟩ := hwf
+  refine ⟨⟨?_, ?_⟩, rfl, rfl⟩
+  · rw [setValue_data]; simp [VecBuf.setValue, hlen]
+  · rw [setValue_data]
+    intro b hb'
+    rcases List.mem_or_eq_of_mem_set hb' with h | h
+    · exact hbytes b h
+    · rw [h]
+      have hbib : 0 < v.st.bib := by cases v.st <;> decide
+      have hk : bit % v.st.bib < v.st.bib := Nat.mod_lt _ hbib
+      generalize v.data.getD (divCeil v.bits v.st.bib - 1 - bit / v.st.bib) 0 = old
+      -- the result is taken modulo 256
+      unfold byteSet; exact Nat.mod_lt _ (by decide)
+
+/-- all bit records of a time step, in the order the file lists them -/
+def writeAll (v : VecBuf) (ws : List (Nat × Nat)) : VecBuf := ws.foldl (fun v w => v.setValue w.1 w.2) v
+
+/-- the value the records of a time step assign to position `j`: the last record for `j`, if any -/
+def lastWrite (ws : List (Nat × Nat)) (j : Nat) : Option Nat := (ws.reverse.find? (fun w => w.1 == j)).map (·.2)
+
+/-- **a vector is assembled from its per-bit records**: after any sequence of bit records (any order, repetitions allowed),
+every position of the assembled value holds the last value recorded for it, and the positions without a record keep
+their previous symbol -/
+theorem C11_vector_assembled (ws : List (Nat × Nat)) : ∀ (v : VecBuf), v.WF →
+    (∀ w ∈ ws, w.1 < v.bits ∧ w.2 ≤ v.st.mask) → ∀ j, j < v.bits →
+    symAt v.st (writeAll v ws).data j = (lastWrite ws j).getD (symAt v.st v.data j) := by
+  induction ws with
+  | nil => intro v _ _ j _; simp [writeAll, lastWrite]
+  | cons w ws ih =>
+    intro v hwf hws j hj
+    have hw := hws w (by simp)
+    obtain ⟨hwf', hbits, hst⟩ := setValue_wf v hwf w.1 w.2 hw.1 hw.2
+    have hrec := ih (v.setValue w.1 w.2) hwf' (fun x hx => by rw [hbits, hst]; exact hws x (by simp [hx])) j (by rw [hbits]; exact hj)
+    simp only [writeAll, List.foldl_cons] at hrec ⊢
+    rw [hst] at hrec
+    rw [hrec, C11_set_get v hwf w.1 j w.2 hw.1 hj hw.2]
+    simp only [lastWrite, List.reverse_cons, List.find?_append]
+    cases hf : ws.reverse.find? (fun x => x.1 == j) with
+    | some y => simp
+    | none =>
+      by_cases hjw : j = w.1
+      · simp [hjw]
+      · have : ¬ (w.1 = j) := fun h => hjw h.symm
+        simp [hjw, this]
+
 /-! ### std_ulogic values -/
 
 /-- the lookup table of the code maps GHDL's literal position (U X 0 1 Z W L H -) to the symbol that renders as that literal -/
@@ -147,6 +195,30 @@ theorem C11_labels (downto : Bool) (l r : Int) (k : Nat) (hk : k < (GhwSpec.vecL
     (GhwSpec.elemLabels downto l r)[k]? = some (if downto then l - k else l + k) := by
   simp [GhwSpec.elemLabels, hk]
 
+/-! ### delta cycles -/
+
+/-- **changes of successive delta cycles of one simulation time are recorded under the same time index**: a step at the
+current time leaves the time table as it is (so its entries carry the index of the previous step), a later time
+appends exactly one entry -/
+theorem C11_delta_cycle (leaves : List GhwSpec.Leaf) (s s' : GhwSpec.WSt) (t : Nat) (r : List Nat)
+    (ch : List (Nat × GhwSpec.AVal)) (hs : s.ttRev = t :: r) (h : GhwSpec.stepW leaves s t ch = some s') :
+    s'.ttRev = t :: r := by
+  unfold GhwSpec.stepW at h
+  simp only [hs, Nat.lt_irrefl, ↓reduceIte] at h
+  split at h
+  · cases h
+  · rename_i ch' hgo
+    cases h; rfl
+
+theorem C11_new_time (leaves : List GhwSpec.Leaf) (s s' : GhwSpec.WSt) (t u : Nat) (r : List Nat)
+    (ch : List (Nat × GhwSpec.AVal)) (hs : s.ttRev = t :: r) (hu : t < u) (h : GhwSpec.stepW leaves s u ch = some s') :
+    s'.ttRev = u :: t :: r := by
+  unfold GhwSpec.stepW at h
+  simp only [hs, hu, ↓reduceIte] at h
+  split at h
+  · cases h
+  · cases h; rfl
+
 /-! ### non-vacuity -/
 example : (VecBuf.ofInfo { min := 0, max := 9, two := false, ref := 0 }).WF := by
   constructor
@@ -154,6 +226,7 @@ example : (VecBuf.ofInfo { min := 0, max := 9, two := false, ref := 0 }).WF := b
   · intro b hb; simp [VecBuf.ofInfo] at hb; omega
 example : ((VecBuf.ofInfo { min := 0, max := 2, two := false, ref := 0 }).setValue 2 5 |>.setValue 0 1).data = [5, 1] := by decide
 example : GhwSpec.elemLabels true 1 0 = [1, 0] ∧ GhwSpec.elemLabels false 3 5 = [3, 4, 5] := by decide
+example : lastWrite [(0, 1), (2, 5), (0, 3)] 0 = some 3 ∧ lastWrite [(0, 1), (2, 5)] 1 = none := by decide
 example : enumBits 2 = 1 ∧ enumBits 3 = 2 ∧ enumBits 9 = 4 ∧ enumBits 1 = 0 := by decide
 
 end Wellen.Ghw
